@@ -31,7 +31,8 @@ ASSUMPTIONS = [
     'float formatting/parsing is not modelled: the model carries float TEXT; bit-identity is checked on the real code',
 ]
 
-HEADER = '''From Coq Require Import NArith ZArith List. Import ListNotations.
+HEADER = '''From Coq Require Import String.
+From Coq Require Import NArith ZArith List. Import ListNotations.
 From PV Require Import Yanny.Bytes Yanny.Types Yanny.Parse Yanny.Render C01.Model. Open Scope N_scope.'''
 
 UNSUPPORTED = ['u1', 'u2', 'u4', 'u8', 'i1', 'b1', 'f2', 'c8', 'c16', 'f16']
@@ -219,7 +220,7 @@ def correspond(ctx, proof_ok=True):
     ctx.coverage['pydl_file'] = pydl_file
     idx = [k for k, j in enumerate(jobs) if j['tag'] in ('in-domain', 'unsupported')]
     terms = [case_term(jobs[k], results[k]) for k in idx]
-    cc = C.CoqCases(ctx.work, HEADER, 'run_cases', shard=ctx.n(12, 40))
+    cc = C.CoqCases(ctx.work, HEADER, 'run_cases', shard=ctx.n(18, 40))
     verdicts = dict(zip(idx, cc.run(terms)))
     ctx.coverage['coq_eval_s'] = round(cc.coq_seconds, 1)
 
